@@ -25,6 +25,7 @@ def __init__(self, directory=None, timeout=60, disk=Disk, **settings):
     self._timeout = 0
     self._local = threading.local()
     self._txn_id = None
+    self._txn_files = ([], [])
 
     if not op.isdir(directory):
         try:
